@@ -6,10 +6,21 @@ TABLE_OPTS = [['-Cem'], ['-Ce'], ['-Cm'], ['-C'], ['-Cf'], ['-CF'], ['-Cfe'], ['
               ['-Cae'], ['-Caf'], ['-CaF'], ['-Cam'], ['-Caem'], []]
 
 
-def opts_for(rs, topt):
+def default_csize(topt):
+    """the manual (-7/-8): a scanner is 8-bit unless full or fast tables are asked for *without*
+    equivalence classes"""
+    for x in topt:
+        if x.startswith('-C') and ('f' in x[2:] or 'F' in x[2:]) and 'e' not in x[2:]:
+            return 128
+    return 256
+
+
+def opts_for(rs, topt, seed=None):
+    """-7/-8 spelled out, or — for half of the seeds, where the documented default is the wanted
+    size — left to flex"""
     o = list(topt)
-    if rs.csize == 256 and not any(x.startswith('-C') and ('f' in x or 'F' in x) for x in o):
-        pass
+    if seed is not None and default_csize(topt) == rs.csize and random.Random(seed * 2654435761 % 2**32).random() < 0.5:
+        return o
     o.append('-8' if rs.csize == 256 else '-7')
     return o
 
@@ -21,12 +32,16 @@ def validate_one(flex, workdir, name, rs, topt, lex_seed, budget=200000, keep=Fa
     text = rs.to_lex(rng)
     lf = os.path.join(workdir, name + '.l')
     cf = lf + '.c'
-    open(lf, 'w', encoding='latin1').write(text)
-    opts = opts_for(rs, topt) + list(extra_opts)
+    crlf = random.Random(lex_seed ^ 0xc41f).random() < 0.12
+    if crlf:
+        # a rule file written on a system with CR-LF line ends: flex reads `\r?\n` as a newline everywhere
+        text = text.replace('\n', '\r\n')
+    open(lf, 'w', encoding='latin1', newline='').write(text)
+    opts = opts_for(rs, topt, lex_seed) + list(extra_opts)
     t0 = time.time()
     rc, so, se = flexrun.run_flex(flex, lf, cf, opts, timeout=flex_timeout)
     res = {'name': name, 'opts': opts, 'lex': text, 'flex_rc': rc, 'flex_stderr': se[-2000:],
-           'x_groups': len(re.findall(r'\(\?[is]*x[is]*(?:-[is]+)?:', text))}
+           'x_groups': len(re.findall(r'\(\?[is]*x[is]*(?:-[is]+)?:', text)), 'crlf': crlf}
     if rc != 0:
         # -999: flex still running after flex_timeout seconds (DFA blow-up); counted, not judged
         res['status'] = 'slow' if rc == -999 else 'flexfail'
